@@ -7,7 +7,7 @@ ASSUMPTIONS = ['each shared access between two synchronisation calls is atomic (
 
 
 def main(tier, seed, replay=None):
-    ck, ok = CC.run_property("C18", tier, seed, replay, ['subchannel', 'subchannel', 'subchannel_dropped', 'produce', 'consume', 'consume_eof', 'status', 'both_drop_cb'], lambda s: s.startswith(('channel-id-parity', 'subchannel-', 'channel-over-channel', 'channel-over-dropped-carrier', 'channel-tables-not-back', 'channel-id-handed-out-twice', 'reconfigure-')), None, ASSUMPTIONS, extra=EXTRA)
+    ck, ok = CC.run_property("C18", tier, seed, replay, ['subchannel', 'subchannel', 'subchannel_dropped', 'produce', 'consume', 'consume_eof', 'status', 'both_drop_cb', 'sendonly_roundtrip'], lambda s: s.startswith(('channel-id-parity', 'subchannel-', 'channel-over-channel', 'channel-over-dropped-carrier', 'channel-tables-not-back', 'channel-id-handed-out-twice', 'reconfigure-')), None, ASSUMPTIONS, extra=EXTRA)
     try:
         from props import chan_model
 
